@@ -8,6 +8,8 @@ def text_edit(old, new):
         return src.replace(old, new, 1) if old in src else None
     return edit
 MUTANTS = [
+    Mutant('cov_fix_isclose', 'src/pharmpy/model/external/nonmem/table.py', text_edit("        df = df.loc[(df != 0).any(axis=1), (df != 0).any(axis=0)]  # Remove FIX", "        nonzero = ~np.isclose(df.to_numpy(dtype=float), 0.0)\n        df = df.loc[nonzero.any(axis=1), nonzero.any(axis=0)]  # Remove FIX"), 'Z10', 'tolerance drops small parameters'),
+    Mutant('etc_triu_fill', 'src/pharmpy/model/external/nonmem/table.py', text_edit("        matrix_array = [flattened_to_symmetric(x) for x in vals]", "        n_ = len(eta_col_names)\n        cols_, rows_ = np.triu_indices(n_)\n        matrix_array = []\n        for x in vals:\n            m_ = np.zeros((n_, n_))\n            m_[rows_, cols_] = x\n            m_[cols_, rows_] = x\n            matrix_array.append(m_)"), 'Z11', 'column-major fill'),
     Mutant('table_block_cleared', 'src/pharmpy/tools/external/nonmem/results_file.py', text_edit("                if bool(block):\n                    yield (table_number, block)\n                block = {}", "                if bool(block):\n                    yield (table_number, block)\n                    block.clear()"), 'Y0', 'yielded dict reused'),
     Mutant('mu_inits_override', 'src/pharmpy/tools/external/nonmem/results.py', text_edit("value = expr.subs(dict(pe)).subs(model.parameters.inits)", "value = expr.subs({**dict(pe), **model.parameters.inits})"), 'Z8', 'inits override final estimates'),
     Mutant('phi_etas_own_filter', 'src/pharmpy/model/external/nonmem/table.py', text_edit("        df = self._df\n        df = df.loc[df.iloc[:, 2:].any(axis=1)]\n        eta_col_names = [col for col in df if col.startswith('ETA') or col.startswith('PHI')]\n        etas = df[eta_col_names]", "        df = self._df\n        eta_col_names = [col for col in df if col.startswith('ETA') or col.startswith('PHI')]\n        df = df.loc[df[eta_col_names].any(axis=1)]\n        etas = df[eta_col_names]"), 'Z9', 'view with another row filter'),
